@@ -92,7 +92,8 @@ class C18(Check):
             '(also negative index), a slice (steps 1, 2, -1, negative bounds), everything ([:] / [...]), a boolean mask, an integer index '
             'array; the value an array of positions, or one position broadcast; unrelated positions (incl. both systems\' poles), '
             'corrections of 1e-10..1e-2 rad, or only one of the two coordinates changed - and transformed again after every edit in one of '
-            'three histories (same stripe / other stripe first / first, other, first again).  Every answer is judged against the rotation '
+            'three histories (same stripe / other stripe first / first, other, first again; in the last two the caller also keeps and '
+            'reuses the target frame objects).  Every answer is judged against the rotation '
             'model of what the object reads at that moment, for neighbour separations and for the source reading unchanged; after the '
             'whole history (so that nothing the oracle does sits between the caller\'s transforms) every answer must still read as at first, '
             'transform back to what the object held, and equal the answer for a freshly built object of the same content; two of the '
@@ -167,7 +168,8 @@ class C18(Check):
                                'inpl_points_longitude_only_changed', 'inpl_points_latitude_only_changed',
                                'inpl_history_same', 'inpl_history_other_first', 'inpl_history_sibling',
                                'inpl_companion_transforms', 'inpl_fresh_object_comparisons', 'inpl_roundtrips',
-                               'inpl_results_alive_checks', 'inpl_result_edits', 'inpl_successor_objects_same_id']
+                               'inpl_results_alive_checks', 'inpl_result_edits', 'inpl_successor_objects_same_id',
+                               'inpl_target_frame_reuses']
                               + ['gc_sep_decade_1e%+d' % d for d in DECADES])
     REQUIRED_REACH = {'astro.gcirc': 0.85, 'coord.stripe_to_eta': 1.0, 'coord.stripe_to_incl': 1.0,
                       'coord.radec_to_munu': 1.0, 'coord.munu_to_radec': 1.0,
@@ -1634,11 +1636,24 @@ class C18(Check):
         # the companion of a (mu,nu) object: another object of the same shape on another stripe, transformed in between
         companion = None if system == 'icrs' else self._source(lat0[..., ::-1] + 90.0, lat0, 'munu', s2, frame_api)
 
+        kept = {}
+
+        def target(t):
+            """The frame object asked for: a new one per transform, or (two histories of three) one per stripe kept by the caller."""
+            if hist == 'same':
+                return SDSSMuNu(stripe=t) if system == 'icrs' else ICRS()
+            if t not in kept:
+                kept[t] = SDSSMuNu(stripe=t) if system == 'icrs' else ICRS()
+                out.count('inpl_target_frames_kept')
+            else:
+                out.count('inpl_target_frame_reuses')
+            return kept[t]
+
         def transform(step, t):
             obj = box[0]
             content = self._lonlat(obj, system)
             what = '%s, %s, %s, to %s' % (name, arrow, step, 'stripe %d' % t if system == 'icrs' else 'ICRS')
-            res = obj.transform_to(SDSSMuNu(stripe=t) if system == 'icrs' else ICRS())
+            res = obj.transform_to(target(t))
             self._unmodified(out, obj, system, content, what, counter='inpl_source_unmodified_checks', stripe=t)
             got = self._lonlat(res, other)
             j = self._inpl_judge(out, what, system, content, got, incl if t == stripe else incl2, t)
